@@ -114,12 +114,74 @@ def _one(args: Tuple[str, str, str]) -> Tuple[str, str, List[Tuple[int, str, str
         return name, target, [_run(model, target, root / "snippets", s) for s in ("0", "1", "12345")]
 
 
+# a child that adds several patterns to a property on which its parent already imposes one: the schema generators
+# compute "what the child adds" -- with sets of patterns
+TIGHTENING = '''\
+@verification
+def matches_lower(text: str) -> bool:
+    """Check that :paramref:`text` is in lower case."""
+    pattern = f"^[a-z_]*$"
+    return match(pattern, text) is not None
+
+
+@verification
+def matches_no_double_underscore(text: str) -> bool:
+    """Check that :paramref:`text` has no double underscore."""
+    pattern = f"^(_?[a-z]+)*_?$"
+    return match(pattern, text) is not None
+
+
+@verification
+def matches_starts_with_letter(text: str) -> bool:
+    """Check that :paramref:`text` starts with a letter."""
+    pattern = f"^[a-z].*$"
+    return match(pattern, text) is not None
+
+
+@verification
+def matches_ends_with_letter(text: str) -> bool:
+    """Check that :paramref:`text` ends with a letter."""
+    pattern = f"^.*[a-z]$"
+    return match(pattern, text) is not None
+
+
+@abstract
+@invariant(lambda self: matches_lower(self.some_property), "Lower case")
+@invariant(lambda self: len(self.some_property) >= 1, "Non-empty")
+class Parent(DBC):
+    """Represent a parent."""
+
+    some_property: str
+    """Some property"""
+
+    def __init__(self, some_property: str) -> None:
+        self.some_property = some_property
+
+
+@invariant(lambda self: matches_ends_with_letter(self.some_property), "Ends with a letter")
+@invariant(lambda self: matches_starts_with_letter(self.some_property), "Starts with a letter")
+@invariant(lambda self: matches_no_double_underscore(self.some_property), "No double underscore")
+@invariant(lambda self: len(self.some_property) <= 10, "At most 10")
+class Something(Parent):
+    """Represent something."""
+
+    def __init__(self, some_property: str) -> None:
+        Parent.__init__(self, some_property)
+
+
+__version__ = "dummy"
+__xml_namespace__ = "https://dummy.com"
+'''
+
+
 def all_targets(seed: int = 0, jobs: int = 8, **_: Any) -> Dict[str, Any]:
     import multiprocessing as mp
     from native import c02, c11
     targets = ["cpp", "csharp", "golang", "java", "jsonschema", "python", "typescript", "xsd"]
     tasks = [("base model 2 of native/c02.py", c02.BASE2, t) for t in targets]
     tasks += [("harness model of native/c11.py", c11.MODEL, t) for t in targets if t not in ("cpp", "java")]
+    tasks += [("a child adding three patterns to a property constrained by its parent", TIGHTENING, t)
+              for t in targets]
     with mp.get_context("fork").Pool(jobs) as pool:
         res = pool.map(_one, tasks, chunksize=1)
     failures: List[Any] = []
